@@ -222,19 +222,23 @@ end Alliance
 namespace Alliance
 open Dec
 
+/-- the state after `queueUndelegation` (it cannot fail) -/
+theorem queueUndelegation_state (del : Acct) (v : ValId) (d' : Denom) (amt : Int) (w : World) :
+    (queueUndelegation del v d' amt w).2 =
+      { w with
+        undelQueue := AL.set w.undelQueue (w.time + w.staking.unbondingTime, del)
+          ((AL.get w.undelQueue (w.time + w.staking.unbondingTime, del)).getD [] ++ [{ del := del, val := v, denom := d', amount := amt }]),
+        undelIndex := setInsert w.undelIndex (v, w.time + w.staking.unbondingTime, d', del) } := by
+  unfold queueUndelegation
+  simp only [bind_apply, getW_apply, modifyW_apply, pure_apply]
+  cases h : AL.get w.undelQueue (w.time + w.staking.unbondingTime, del) <;> simp [Option.getD]
+
 /-- queueing an undelegation: pending of that denom grows by exactly the amount; custody and assets are untouched -/
 theorem queueUndelegation_gap (del : Acct) (v : ValId) (d' : Denom) (amt : Int) (w : World) (hs : QSorted w) (d : Denom) :
     pending (queueUndelegation del v d' amt w).2 d = pending w d + (if d' = d then amt else 0) ∧
     custody (queueUndelegation del v d' amt w).2 d = custody w d ∧
     (queueUndelegation del v d' amt w).2.assets = w.assets ∧ QSorted (queueUndelegation del v d' amt w).2 := by
-  have hspec : (queueUndelegation del v d' amt w).2 =
-      { w with
-        undelQueue := AL.set w.undelQueue (w.time + w.staking.unbondingTime, del)
-          ((AL.get w.undelQueue (w.time + w.staking.unbondingTime, del)).getD [] ++ [{ del := del, val := v, denom := d', amount := amt }]),
-        undelIndex := setInsert w.undelIndex (v, w.time + w.staking.unbondingTime, d', del) } := by
-    unfold queueUndelegation
-    simp only [bind_apply, getW_apply, modifyW_apply, pure_apply]
-    cases h : AL.get w.undelQueue (w.time + w.staking.unbondingTime, del) <;> simp [Option.getD]
+  have hspec := queueUndelegation_state del v d' amt w
   rw [hspec]
   refine ⟨?_, rfl, rfl, AL.set_sorted undelKeyOrder _ _ _ hs⟩
   unfold pending
